@@ -47,5 +47,117 @@ def scenarios(tier):
     return S
 
 
+def float_cases(tier):
+    C = []
+    nps = (1, 2, 3, 4) if tier == 'quick' else (1, 2, 3, 4, 5, 8)
+    for t0 in (0.0, 1.0e6, -3.7):
+        for dt in (0.1, 0.3, 1.0e-3, 0.7, 1.0 / 3.0, 0.25):
+            for k in (1, 3, 10, 100) if tier == 'quick' else (1, 2, 3, 7, 10, 33, 100, 1000):
+                for frac in (0.0, 0.5):
+                    if k > 100 and frac:
+                        continue
+                    for NP in nps:
+                        if k >= 100 and NP not in (1, 3):
+                            continue
+                        C.append(dict(t0=t0, dt=dt, tend=t0 + (k + frac) * dt, NP=NP, NL=2 if (NP == 2 and k == 3) else 1))
+    return C
+
+
+def _float_job(case):
+    from harness import float_tiling
+    try:
+        return float_tiling.run(case)
+    except Exception as e:  # noqa
+        import traceback
+        return dict(error=f'{type(e).__name__}: {e} {traceback.format_exc()[-300:]}')
+
+
 def run(tier, seed):
-    return run_property('C06', scenarios(tier), tier, seed)
+    import json
+    import multiprocessing as mp
+    import os
+    import shutil
+    import tempfile
+    from lib import tlc
+    from lib.evidence import Report, load_known
+    code1 = run_property('C06', scenarios(tier), tier, seed)
+    root = os.path.dirname(os.path.dirname(os.path.abspath(__file__)))
+    ev1 = json.load(open(os.path.join(root, 'evidence', 'C06.json')))
+    rep = Report('C06', tier, seed, clear_replays=False)
+    rep.assumptions = ev1.get('assumptions', []) + [
+        'float part: fixed-step runs with non-dyadic (t0, dt, Tend); times are projected to ranks of the floats that occur (exact '
+        'comparisons, no arithmetic on rounded values); the expected step count is computed in exact rational arithmetic from the float '
+        'inputs; "up to rounding" = within 1e-9*dt of Tend']
+    rep.rule = ev1['coverage'].get('rule', '') + ' | float part: cases = (t0, dt, Tend, steps per block); non-trivial = more than one block'
+    known = load_known()
+    scratch = tempfile.mkdtemp(prefix='verif_c06f_')
+    try:
+        # the time bookkeeping of the run loop on the lattice (model checking of Tiling.tla)
+        for i, (t0, tend, dt, np_) in enumerate([(0, 10, 4, 3), (5, 12, 2, 4), (0, 4, 4, 2), (3, 30, 3, 4)]):
+            cfg = os.path.join(scratch, f'T{i}.cfg')
+            tlc.write_cfg(cfg, spec='Spec', constants=dict(T0=str(t0), TEND=str(tend), DT=str(dt), NP=str(np_)), invariants=['TileOK'], check_deadlock=False)
+            r = tlc.run_tlc('Tiling', cfg, workers=1, timeout=300)
+            rep.add_tlc(r, f'MC Tiling t0={t0} Tend={tend} dt={dt} NP={np_}')
+            if r.violation:
+                rep.violation('model.' + r.violation, dict(kind='model', module='Tiling', tlc_error=r.error_text[:2000]))
+        cases = float_cases(tier)
+        with mp.Pool(16) as pool:
+            outs = pool.map(_float_job, cases, chunksize=4)
+        runs = []
+        for k, (c, o) in enumerate(zip(cases, outs)):
+            if 'error' in o:
+                rep.machinery.append('float run failed: ' + o['error'])
+            elif o['exc'] is None:
+                runs.append(dict(tid=k + 1, case=c, **{x: o[x] for x in ('t0', 'tend', 'n_expected', 'init', 'ret', 'steps')}))
+        tf = os.path.join(scratch, 'runs.json')
+        json.dump(dict(runs=[{k: v for k, v in r.items() if k != 'case'} for r in runs]), open(tf, 'w'))
+        cfg = os.path.join(scratch, 'TT.cfg')
+        tlc.write_cfg(cfg, spec='Spec', check_deadlock=False)
+        res = tlc.run_tlc('TraceTiling', cfg, workers=1, timeout=1200, env_extra={'TRACE_FILE': tf})
+        verdicts = {v['tid']: v['viol'] for v in res.prints if isinstance(v, dict) and 'tid' in v}
+        rep.states += res.distinct
+        rep.transitions += res.generated
+        if len(verdicts) != len(runs):
+            rep.machinery.append('TraceTiling did not return all verdicts: ' + res.raw[-500:])
+        byid = {r['tid']: r for r in runs}
+        nfl = 0
+        for tid, viol in verdicts.items():
+            nfl += 1
+            r = byid[tid]
+            for clause in viol:
+                f = next((f for f in known.get('findings', []) if f['property'] == 'C06' and clause in f.get('clauses', [])
+                          and f.get('predicate') == 'rounding_extra_step' and rounding_extra_step(r)), None)
+                if f:
+                    n, t = rep.known.get(f['id'], (0, f['text']))
+                    rep.known[f['id']] = (n + 1, f['text'])
+                else:
+                    rep.violation(clause, dict(kind='float-tiling', clause=clause, case=r['case'], n_steps=len(r['steps']), n_expected=r['n_expected'],
+                                               last_steps=r['steps'][-3:]))
+        # merge with the lattice part
+        rep.states += ev1['coverage'].get('states', 0)
+        rep.transitions += ev1['coverage'].get('transitions', 0)
+        rep.traces = nfl + ev1['coverage'].get('traces_validated_against_impl', 0)
+        rep.evaluations = rep.traces
+        rep.distinct_nontrivial = ev1['coverage'].get('distinct_nontrivial', 0) + sum(1 for r in runs if len(r['steps']) > r['case']['NP'])
+        rep.cov['float_runs'] = nfl
+        rep.cov['lattice_part'] = {k: ev1['coverage'].get(k) for k in ('clause_counts', 'trace_actions', 'traces_validated_against_impl', 'tv_batches',
+                                                                       'explore', 'gen', 'mc_violations', 'tlc_runs')}
+        rep.samples += ev1['coverage'].get('samples', [])[:1]
+        if runs:
+            rep.samples.append(dict(case=runs[len(runs) // 2]['case'], steps=runs[len(runs) // 2]['steps'][:4]))
+        for fid, n in (ev1.get('known_findings') or {}).items():
+            text = next((f['text'] for f in known['findings'] if f['id'] == fid), '')
+            rep.known[fid] = (n, text)
+        if code1 == 1:
+            rep.violation('lattice_part_summary', dict(kind='see the replay files C06_*.json written by the lattice part'))
+        elif code1 == 2:
+            rep.machinery.append('lattice part reported a machinery problem (see output above)')
+    finally:
+        shutil.rmtree(scratch, ignore_errors=True)
+    return rep.finish()
+
+
+def rounding_extra_step(r):
+    """exactly one step more than expected and the surplus step starts within rounding of Tend"""
+    st = r['steps']
+    return len(st) == r['n_expected'] + 1 and st[-1]['near_tend'] and all(not s['near_tend'] for s in st[:-1])
